@@ -614,19 +614,23 @@ class C14(F.Check):
                 return T.TRUE, T.const_bool(bool(d) and re.search(pattern, d) is not None)
             obs.append(F.Ob("guard:" + name, [], pfn, kind="closed", key=key, kernels=[name],
                             note="negative compile probe: this line must be rejected (%s)" % pattern))
-        # observations -> notes
+        # strict reading of "collapsing to a raw number exactly when the units cancel": known finding D13 on the unblock_int_div
+        # and int_pow<0> forms (the library uses make_quantity there, not make_quantity_unless_unitless)
         for name, e in self.observe:
             h = K[name]
             if h.kernel.dropped:
                 continue
-            try:
-                v = h().ret
-                if T.is_const(v):
-                    self.notes.append("observation: std::is_arithmetic<decltype(%s)> == %s (units cancel, yet the result is %s)" % (
-                        e, bool(v.attr), "a raw number" if v.attr else "a Quantity of the unitless unit, implicitly convertible to its rep"))
-            except Exception as ex:   # noqa
-                self.notes.append("observation kernel %s not evaluated: %r" % (name, ex))
+
+            def sfn(K, name=name):
+                return T.TRUE, K[name]().ret
+            obs.append(F.Ob("strict_collapse:" + name, [], sfn, kind="closed", key={"expression": e, "expected": "a raw number (units cancel)"},
+                            kernels=[name], note="units cancel => result is a raw arithmetic value"))
         return obs
+
+    def known_predicates(self):
+        def d13(ob, vs):
+            return T.TRUE if ob.name.startswith("strict_collapse:") else None
+        return {"D13": d13}
 
 
 CHECK = C14
